@@ -14,6 +14,9 @@ def check(ctx):
     # the assembled statistics are made finite on every path of compute() (overflowing segment powers of huge finite samples)
     from ..dispatch import check_statistics_finite
     check_statistics_finite(ctx)
+    # the detrend basis is finite for the shortest segments as well
+    from ..qbasis import check_basis_finite
+    check_basis_finite(ctx)
     ctx.trust("E7 aliasing rows (asarray/ascontiguousarray/.T/basic slices alias; arithmetic, fancy indexing, nan_to_num(copy=True) are fresh)",
               "np.nan_to_num keyword defaults (posinf/neginf default to +-1.8e308, not 0)")
     ctx.assume("exact arithmetic: dtype/stride independence of the numbers and float underflow are not decided")
